@@ -97,7 +97,10 @@ CLAIMS['C08'] = dict(
          'section\'s line 0 only; the tables hold nothing unreferenced and nothing twice; contents are the first-seen text per output source; ignore-list membership is carried '
          'over; nested index sections contribute any map that satisfies the same contract; an unresolved section gives Err, and Err arises only from an unresolved section, a '
          'nested index, or a position overflow. SourceMapSectionIter::next is checked against the prophetic iterator laws under a type invariant (at most 2^32-1 sections). '
-         'PARTIAL: the agreement clause (a token found by the index lookup is found at the same original location by the flattened map) is a bounded stand-in only.',
+         '(3) The agreement clause, as a theorem over the two contracts (lemma_index_lookup_agrees_with_flattened, spec/agreement.rs): for sections that are regular or Hermes '
+         'maps, start at strictly increasing offsets, hold tokens at distinct generated positions and keep them before the next offset, an answer Some(t) of the index lookup '
+         'and any answer of the flattened map\'s lookup at the same position point to the same original line, column (range offset included), source and name. PARTIAL: with '
+         'nested index sections the agreement is a bounded stand-in only (index_nested).',
     note=_TB + 'DecodedMap::lookup_token (3-way dispatch, Hermes through its real Deref impl) and SourceMapIndex::lookup_token are verified as a mutually recursive pair against the recursive relation '
          'idx_lookup_post / dm_lookup_post (termination by structural decrease); required: sections sorted by offset (as decode_index leaves them) and token lists sorted, recursively. '
          'flatten assumes: Cow<SourceMap> deref returns the borrowed/owned map; error message texts are not modelled (format! arguments dropped); embedded maps satisfy root_wf; '
@@ -187,7 +190,7 @@ NOT_COVERED = {
     'C09': ['strip_prefixes, find_common_prefix ("~") (bounded stand-in rewrite only)', 'load_local_source_contents (filesystem; excluded by the property)', 'SourceMapHermes::rewrite function-map permutation (bounded stand-in only)'],
     'C05': ['dependencies (serde_json, url, bitvec, data-encoding, base64-simd, debugid)', 'sourceview.rs, js_identifiers.rs, detector.rs line scan, Display/Debug impls, ram_bundle.rs',
             'flatten (+ off_col / + off_line overflow, design-phase defect D6), rewrite, adjust_mappings, range bitfield writer (D4), decode_hermes', 'allocation in proportion to the input; wall-clock (only termination is proved)'],
-    'C08': ['agreement lemma lookup vs flatten (needs: flattened tokens of properly nested sections are already sorted, and SourceMap::lookup_token on the concatenation): bounded stand-in index_flatten only'  , 'flatten_and_rewrite (composition of two proved functions, not itself under contract)'],
+    'C08': ['agreement lookup vs flatten for index maps with NESTED index sections (the lemma covers regular and Hermes sections): bounded stand-in index_nested', 'the hypotheses of the agreement lemma are the postconditions of executed functions; no concrete witness is constructed inside Verus (Vec values cannot be built in spec code), the stand-ins index_flatten / index_nested run the real functions on such inputs', 'flatten_and_rewrite (composition of two proved functions, not itself under contract)'],
     'C14': ['decode_hermes wrapper around the function-map decoder (destructuring of the first scope mapping, collect, decode_regular): bounded stand-in hermes_scope', 'get_original_function_name wrapper', 'stability under serialise/decode (raw metadata retained): bounded'],
     'C01': ['as_raw_sourcemap field plumbing (SourceMap / SourceMapIndex / Hermes): bounded stand-in roundtrip only', 'serde_json layer'],
     'C02': ['the six `let` lines of decode_regular that unpack the raw document (checked textually, not verified)', 'termination of the decode_index / decode_common recursion (bounded by serde_json)', 'decode_hermes'],
